@@ -919,6 +919,11 @@ func runC05InProcess(e *Env) {
 	for i := 0; i < n; i++ {
 		c := xferCase{ID: fmt.Sprintf("C05-inproc-%05d", i), Shape: []string{"boundary", "manysmall", "nested", "onefile"}[r.Intn(4)], Names: "plain", TSeed: r.U64()}
 		c.Cfg = vk.XferCfg{Transport: []string{"quic", "mock"}[r.Intn(2)], Conns: 1, Streams: 1 + r.Intn(4), ChunkSize: []uint32{7, 64, 1000}[r.Intn(3)], Resume: true, NoRootDir: r.Bool(), ScanPaths: r.Bool()}
+		// every third transfer writes over what is already at the destination:
+		// another version of the files, or the state of an earlier session
+		if i%3 == 0 {
+			c.Preexist = []string{"longer", "samelen", "samelen", "leftover-samecs", "leftover-samecount"}[r.Intn(5)]
+		}
 		cases = append(cases, c)
 	}
 	vk.ParallelDo(len(cases), 16, func(i int) {
@@ -926,8 +931,15 @@ func runC05InProcess(e *Env) {
 		e.R.Eval()
 		if o.Res.BothOK() {
 			e.R.Count("inprocess_transfers_ok")
+			if cases[i].Preexist != "" {
+				e.R.Count("inprocess_transfers_ok_over_existing_content")
+			}
 		}
 	})
+	for v := 0; v < e.Pick(2, 6); v++ {
+		runC05BigFile(e, lp, v)
+	}
+	e.R.Require(e.R.Counter("bigfile_marked_chunks_beyond_4GiB_compared") >= 1, "no sidecar of a file over 4 GiB was compared with the file")
 	inv.finish(e.R)
 	for _, v := range inv.violations() {
 		e.R.Violate(v.Key, v.What, v.Case, nil)
